@@ -25,55 +25,55 @@ add("C02", "replicate ensembles vs closed-form evidence (two-stage rule) + deter
 add("C03", "injected randomness: RNG interposer serves chosen gamma/normal/uniform draws to three consecutive sweeps of the real TPCNRunner/RWMRunner object, outcome compared with the tpCN/RWM specification (exact fold, scipy multivariate_t ratio, accept probes at alpha(1+-1e-6), one draw per proposal, out-of-cube rejection); distributional invariance on exact pi_beta draws (paired z, confirm on fresh batch); pipeline cells with the library's own clusterer",
     "2000/20000 cases x 3 sweeps decide proposal map, gamma parameters, acceptance factor, accept rule and state carried between sweeps exactly; 22/200 invariance cells x 2e4/1e5 walkers decide pi_beta-invariance per kernel x boundary kind x covariance structure at z>5 twice.",
     "Trusted: scipy.stats.multivariate_t/truncnorm/vonmises; invariance shown for the exactly samplable families only. Known findings: tpcn+periodic, tpcn+reflective, rwm+reflective+correlated, state-dependent-assignment.")
-add("C04", "runtime monitor: real StateManager.compute_logw_and_logz vs independent long-double reference model on generated and recorded histories (incl. 30-70 iterations, 2e4-sample batches, one history above 2^24 mixture elements), repeated requests on one manager, metamorphic relations, FP-exception trap",
+add("C04", "runtime monitor: real StateManager.compute_logw_and_logz vs independent long-double reference model on generated and recorded histories (incl. 30-70 iterations, 2e4-sample batches, one history above 2^24 mixture elements), repeated requests on one manager, a manager whose history is replaced after it answered requests, values handed over as integers / 0-d arrays / lists, metamorphic relations, FP-exception trap",
     "Held on every generated history (3e3 quick / 1e5 thorough) and on every prefix of histories recorded from real runs; an oracle decides each case, so any deviation of the formula, normalisation, order-dependence, shift-equivariance, request-order dependence or finiteness on an explored history is reported with the history as witness.",
     "Trusted: numpy long double arithmetic of the reference; tolerance 1e-9*(1+scale).")
-add("C05", "invariant at a hook on the real Reweighter.run: pool snapshot -> long-double reference ESS / logZ / weights at the recorded beta; ESS limit read at the hooked _find_beta_upper_limit and validated independently; single-step pools, multi-iteration sequences through one Reweighter instance, monitored real runs",
+add("C05", "invariant at a hook on the real Reweighter.run: pool snapshot -> long-double reference ESS / logZ / weights at the recorded beta; ESS limit read at the hooked _find_beta_upper_limit and validated independently; single-step pools (incl. log-likelihood ranges up to 1e9), multi-iteration sequences through one Reweighter instance, monitored real runs with every step replayed on a fresh Reweighter (differential) and with the ESS limit injected once inside (1-2e-4, 1)",
     "2000/50000 synthetic pools, 600/20000 growing-history sequences (directed: a narrow spike found after the pool was admissible up to beta=1) and every reweighting step of 24/400 monitored runs: monotone, bounded, ESS floor (rel 1e-9), volume mode within the ESS limit, recorded beta/logZ/ESS/weights self-consistent.",
     "Trusted: long-double reference; the ESS limit reported by the code is validated (its reference ESS >= target), not recomputed as a global supremum.")
-add("C06", "runtime monitor with injected randomness: systematic comb driven at every breakpoint +-1ulp / cell midpoint of its u0-partition via an np.random interposer, validated by an independent comb model; pooled multinomial counts; Resampler.run and posterior(resample=True) (with and without trimming)",
+add("C06", "runtime monitor with injected randomness: systematic comb driven at every breakpoint +-1ulp / cell midpoint of its u0-partition via an np.random interposer, validated by an independent comb model; seeded calls must be one comb (feasible-offset interval); pooled multinomial counts and the arguments handed to np.random.choice; Resampler.run at temperatures from 5e-324 to 1 and posterior(resample=True) (with and without trimming)",
     "For each generated (n,w) the whole u0 interval is covered through its finite partition, so length/range/monotonicity/floor-ceil copies/zero-weight clauses are decided for every offset of that (n,w) and unbiasedness by exact integration over cells; (n,w) are sampled (400 quick / 1e4 thorough, incl. vectors of 3e3-1.2e4 weights). Multinomial clause statistical (two-stage z>5.5).",
     "Trusted: long-double cumulative sums of the reference comb; np.random.choice semantics for the multinomial scheme.")
-add("C07", "invariant at hooks: after Resampler.run / Mutator.run / every commit / sample() / posterior(), every particle row is looked up in the instrumented likelihood's evaluation log (unique ids in one- and two-field blobs) and x re-derived from u",
+add("C07", "invariant at hooks: after Resampler.run / Mutator.run / every commit / sample() / posterior(), every particle row is looked up in the instrumented likelihood's evaluation log (unique ids in one-, two- and three-field blobs) and x re-derived from u; also on sampler objects that get another history loaded after they have run, with an identity prior transform that returns its argument, and with the likelihood evaluated in worker processes",
     "Every particle row at every step boundary of 36 (quick) / ~370 (thorough) monitored runs over a covering array of the option lattice plus dedicated sparse-support x blobs runs (3e4-1e6 rows) is identified with the evaluation it came from; a split record cannot match the log.",
     "Trusted: purity of the harness' prior transform and likelihood; x bytes / blob ids as record identity. Known finding: all-zero-likelihood-batch.")
-add("C08", "fault enumeration: kill points before every I/O call of a checkpoint save and at byte offsets inside OS-level writes, with a real BufferedWriter over the killing raw layer and the buffer size as part of the schedule (in-process engine; strace syscall injection in thorough); digests of restored state vs digest hooked at save time; resumed runs monitored (same / larger target, final checkpoint, second generation)",
+add("C08", "fault enumeration: kill points before every I/O call of a checkpoint save and at byte offsets inside OS-level writes, with a real BufferedWriter over the killing raw layer and the buffer size as part of the schedule (in-process engine; strace syscall injection in thorough); digests of restored state vs digest hooked at save time; resumed runs monitored (same / larger target, final checkpoint, second generation); checkpoints written by a re-used sampler object after its history was replaced",
     "Every checkpoint of save_every=1 runs in 7/32 configurations is restored and compared bitwise; resumes checked for prefix identity, numbering, cross-process call counting, schedule and postconditions; every I/O call boundary of a save plus byte offsets is a crash point in first-save and overwrite scenarios under 2-3 buffer sizes.",
     "Trusted: process death only (no power-loss semantics); sha256 digests.", category="fault_enumeration")
-add("C09", "runtime monitor: bitwise digests of paired seeded runs and of seeded resume pairs; global RNG state hashes at the exit of every library operation under three ambient seeds, on samplers built without and with random_state; reseed log from the np.random interposer",
+add("C09", "runtime monitor: bitwise digests of paired seeded runs and of seeded resume pairs; global RNG state hashes at the exit of every library operation under three ambient seeds, on samplers built without and with random_state, and as the second call on one object; runs with neighbouring random_state values must share no particle; reseed log from the np.random interposer",
     "Reproducibility decided bitwise on 11/160 construct+run pairs and 4/24 resume pairs; the reset clause decided deterministically per operation (state equality across ambient seeds is the witness) over 58-190 operation instances covering mixture fits, mode statistics, every pipeline step and the public sampler calls.",
     "Trusted: seeding with the user's random_state at construction / checkpoint load is the documented mechanism, any later reset is not.")
-add("C10", "metamorphic pairs: same seeded real run with logL and logL+c; discrete structure exact, continuous quantities to rounding, recorded logZ_t shifted by beta_t*c; mismatch must reproduce on 2 of 3 further seeds",
+add("C10", "metamorphic pairs: same seeded real run with logL and logL+c; discrete structure exact, continuous quantities to rounding, recorded logZ_t shifted by beta_t*c; mismatch must reproduce on 2 of 3 further seeds; pairs with the ESS limit injected inside (1-2e-4, 1) and pairs whose prior transform returns float32 coordinates",
     "26 (quick) / 800 (thorough) pairs over kernel x resampler x clustering x evaluation mode x metric mode x shifts in [-1e3,1e3] incl. irrational ones, shifts across logL=0 and below -700, and histories above 4096 samples.",
     "Trusted: tolerance 1e-9 on particles (RWM adaptation rounding), 1e-8 relative on weights/ESS, 1e-9(1+|c|) on the logZ shift.")
-add("C11", "runtime monitor: instrumented likelihood counts finite/-inf evaluations per warm-up batch, hull oracle on every recorded beta=0 evidence; stored -inf checked at step hooks; directed warm-up batches served by the RNG interposer (chosen rows in the zero-likelihood region); final evidence by two-stage replicate rule",
+add("C11", "runtime monitor: instrumented likelihood counts finite/-inf evaluations per warm-up batch, hull oracle on every recorded beta=0 evidence, and no record of log 1 once a zero-likelihood draw was observed; stored -inf checked at step hooks; directed warm-up batches served by the RNG interposer (chosen rows in the zero-likelihood region); final evidence by two-stage replicate rule",
     "Hull test is exact per warm-up iteration on 74/400 traced runs (f in 0.15..1, 2-6 warm-up iterations, directed patterns row0/last/rows01/one-random/all-but-one); final evidence judged on R=32/96 replicates per cell.",
     "Trusted: closed-form evidence of the truncated Gaussian target; Rule S thresholds. Known finding: all-zero-likelihood-batch.")
-add("C12", "runtime monitor: run() postconditions against the reference MIS model; all 16 posterior() option combinations x trimming parameters with row identity through the evaluation log; finished runs re-opened from their final checkpoint",
+add("C12", "runtime monitor: run() postconditions against the reference MIS model; all 16 posterior() option combinations x trimming parameters with row identity through the evaluation log; finished runs re-opened from their final checkpoint; a second run() on the same object; posterior() on a stored history of more than 2^17 rows",
     "Postconditions and the full posterior() contract (lengths, normalisation, uniformity, row alignment of x/logL/blob/logw/weights) decided on every completed run of a covering array (8 quick / ~260 thorough) x 16 combos x 5-9 trimming settings.",
     "Trusted: long-double MIS reference; log-weights compared up to one additive constant per call.")
-add("C13", "runtime monitor over evaluation schedules: same seed under vectorised / scalar / reversed / permuted / delayed ThreadPool / full multiprocessing-Pool API with truly unordered variants / futures-style executor / integer pools, sha256 of histories, cross-process evaluation counter",
+add("C13", "runtime monitor over evaluation schedules: same seed under vectorised / scalar / reversed / permuted / delayed ThreadPool / full multiprocessing-Pool API with truly unordered variants / futures-style executor / integer pools / return-type variants (read-only view of a reused buffer, list, 0-d array, np.float64, longdouble), sha256 of histories, cross-process evaluation counter",
     "Transparency decided bitwise across 7-9 schedules x 4-6 configurations x 2-8 seeds (out-of-order completions are counted to show the schedules really differed); calls compared with a counter shared across threads and processes.",
     "Trusted: the harness likelihood is pointwise identical in all modes (vectorised mode evaluates row by row).")
-add("C14", "invariant at the kernel boundary (hook on parallel_mcmc) and for every pool particle resampling can select: label < K, mode finite/SPD/positive dof, mode location inside the bounding box of the training particles carrying that label; noise-free probe sweep (RNG interposer) identifies the mode the kernel actually uses; synthetic dying-mode pools with directed victim labels through the real Trainer/Resampler, monitored runs, resume points",
+add("C14", "invariant at the kernel boundary (hook on parallel_mcmc) and for every pool particle resampling can select: label < K, mode finite/SPD/positive dof, mode location inside the bounding box of the training particles carrying that label; noise-free probe sweep (RNG interposer) identifies the mode the kernel actually uses; synthetic dying-mode pools with directed victim labels through the real Trainer/Resampler, label consistency between training and resampling, purity of predict, monitored runs, resume points incl. the same object re-loaded from its own checkpoints",
     "300/5000 synthetic pool sequences (4-8 consecutive iterations, cluster_every 1-5, caps, sudden mode death, each label in turn losing all trimmed training points between refits) and 24/300 monitored runs incl. resume; gap iterations, directed iterations and probed walkers are counted so the evidence shows the hostile cases were reached.",
     "Trusted: a Student-t fit's location lies in its data's bounding box (C19); labels with <= n_dim distinct training points are not judged.")
-add("C15", "runtime contract monitors on GaussianMixture / HierarchicalGaussianMixture over generated weighted data sets; metamorphic weight-replication pairs with fixed EM step count",
+add("C15", "runtime contract monitors on GaussianMixture / HierarchicalGaussianMixture over generated weighted data sets (incl. clusters 1e4-1e9 spreads apart); metamorphic weight-replication pairs with fixed EM step count; re-used model object vs fresh object (differential)",
     "Algebraic invariants (weights, PSD, bounding box, label ranges, cap, min_points, predict ranges, centres/covariances of the hierarchical model for 'full') asserted on every fit of 300 (quick) / 5000 (thorough) generated data sets; replication equivalence on a third of them.",
     "Trusted: numpy eigvalsh; mean-in-box judged for component weight > 1e-3.")
-add("C16", "runtime monitor: real apply_boundary_conditions/check_bounds vs exact rational (Fraction) fold on hostile and random doubles, memory layouts and index-list forms, FP-exception trap",
+add("C16", "runtime monitor: real apply_boundary_conditions/check_bounds vs exact rational (Fraction) fold on hostile and random doubles, memory layouts and index-list forms, index containers edited in place between calls, FP-exception trap",
     "Each folded value is compared with the exact rational fold of the input double (error <= 2^-53), with idempotence, untouched-coordinate bit-identity, 1-D/2-D/Fortran/strided agreement and check_bounds equivalence; ~2e5 values quick, ~5e6 thorough plus hypothesis floats() and the repo's own suite under a contract monitor.",
     "Trusted: python fractions; the catalogue/generators decide reach.")
-add("C17", "history + executable reference model: random StateManager operation sequences vs dict-of-copies model with a hostile caller overwriting every returned array (incl. 0-d arrays); sampler-level twin runs compared bitwise; append-only monitor on real runs",
+add("C17", "history + executable reference model: random StateManager operation sequences vs dict-of-copies model with a hostile caller overwriting every returned array (incl. 0-d arrays, read-only views of caller-owned buffers, ragged batches); sampler-level twin runs compared bitwise (incl. a likelihood that returns a view of a reused buffer); append-only monitor on real runs",
     "After every operation the manager's public answers are compared with the reference model while every array handed to the caller is overwritten; 300 (quick) / 5000 (thorough) sequences of 40 operations plus hostile-vs-untouched twin sampler runs (incl. a zero-likelihood target) in which every committed batch is re-digested after every later iteration.",
     "Trusted: reference model (30 lines); donated inputs (copy=False, from_dict) are not judged.")
 add("C18", "runtime monitor over 3-wise covering arrays of the constructor option lattice, each row in its own process under an iteration budget, postconditions against the reference model; one-factor invalid values with call counters on the instrumented user callables",
     "3-wise coverage (measured: 99.7% of feasible triples, 190 rows; thorough four arrays) of 16 options incl. default n_particles, integer pools, save_every, boundary kinds; 34 invalid values x context variants must be rejected before any user callable is invoked.",
     "Trusted: greedy covering-array generator (coverage of t-tuples is measured, infeasible tuples dropped).")
-add("C19", "runtime contract monitors on fit_mvstud / ModeStatistics (incl. the n_modes path with empty and singleton labels): well-posedness, metamorphic equivariance pairs, factor consistency, recovery on large multivariate-t samples",
+add("C19", "runtime contract monitors on fit_mvstud / ModeStatistics (incl. the n_modes path with empty and singleton labels): well-posedness, metamorphic equivariance pairs each fitted under another ambient RNG state, particles squeezed to 1e-9.5 of the cube, fits on more than 2^20 rows, factor consistency, recovery on large multivariate-t samples",
     "Well-posedness and four equivariance pairs (scaling 1e-6..1e6, translation, translation by 1e7 sd, permutation) on 300 (quick) / 5000 (thorough) data sets, dof/location/SPD/Cholesky-inverse consistency at the kernel boundary, recovery on 18-72 large t samples.",
     "Trusted: rtol 1e-4 equivariance band; recovery bands nu +-25%, scale +-10%. Known finding: nu-estimate-infinite.")
-add("C20", "runtime contract monitors on effective_sample_size / compute_ess / trim_weights / volume_variation with long-double references, extreme magnitudes, near-one weight sums, repeated calls and conditioning-aware affine pairs",
+add("C20", "runtime contract monitors on effective_sample_size / compute_ess / trim_weights / volume_variation with long-double references, extreme magnitudes, near-one weight sums, repeated calls, conditioning-aware affine pairs, exact power-of-two rescaling and rigid motions of structurally degenerate pools",
     "ESS bounds/scale/uniform, exact threshold-set trimming contract and volume-metric invariances asserted on 3000 (quick) / 1e5 (thorough) generated weight vectors (600-decade range, zeros, ties, raw weights whose squares under/overflow).",
     "Trusted: long-double ESS; affine clause judged only when 1000*eps*kappa <= 1e-2.")
 
